@@ -71,6 +71,8 @@ def gen_command(rng, voc):
              'wl', 'wlx', '', ' ', 'help help', 'help wl', 'help wllist', 'help x', 'help matcher', 'list ~', 'list ~ x', 'list ~ 1 ~ 2',
              'list ~ -1', 'list ~ 99999999999999999999', 'list a ~', 'list ~1', 'connection  ', 'connection all ', 'connection A B',
              'c all', 'filter', 'breakpoint', 'matcher', 'filter  ', '\tlist\t*', 'list\x0b*', 'list\x0c*', 'list\xa0*',
+             'w  help', 'wl   list', 'w \t help', 'wl  ', 'w   w  help', 'list ~ ²', 'list ~ ①', 'list ~ ₂', 'list ~ ٣', 'list ~ ' + '9' * 5000,
+             'list * ~ ²', 'list ~ 1e3', 'list ~ 0x10', 'list ~ +5', 'list ~ 5 ', 'list ~  5', 'list ~ 1_000',
              'w ' * 1500 + 'help', 'wl ' * 3000 + 'list', 'w wl ' * 700, 'list ' + '(' * 3000, 'filter ' + '[' * 2000 + ']' * 2000,
              'matcher ' + 'a,' * 5000 + 'a', 'list ' + '!' * 2000, 'help ' + 'wl' * 2000]
     if r < 0.35:
